@@ -61,8 +61,9 @@ def classes():
     class Sep(pym.Module):
         """scalar response of the concatenated inputs given by fun(x)->(value, gradient)"""
 
-        def _prepare(self, fun):
+        def _prepare(self, fun, indep=()):
             self.fun = fun
+            self.indep = tuple(indep)        # inputs the response does not depend on: their sensitivity is None, not zeros
 
         def _response(self, *args):
             self.x = np.concatenate([np.atleast_1d(np.asarray(a, dtype=float)).ravel() for a in args])
@@ -76,7 +77,7 @@ def classes():
                 gi = g[k:k + n]
                 k += n
                 out.append(gi.reshape(np.shape(s.state)) if np.ndim(s.state) else float(gi[0]))
-            return out
+            return [None if i in self.indep else o for i, o in enumerate(out)]
     _CLS["Sep"] = Sep
     return _CLS
 
@@ -166,8 +167,15 @@ def make_problem(kind, rng):
     funs = [fobj]
     xfeas = lo + rng.uniform(0.2, 0.8, n) * (hi - lo)
     cons = []
+    indep = {}
     for j in range(m):
         a = rng.standard_normal(n)
+        if nsig >= 2 and rng.random() < 0.4:
+            # a constraint on part of the design only: it does not depend on one of the variable signals (mostly not the last one)
+            isg = int(rng.integers(0, nsig - 1)) if rng.random() < 0.8 else nsig - 1
+            k0 = int(sum(sizes[:isg]))
+            a[k0:k0 + sizes[isg]] = 0.0
+            indep[j + 1] = (isg,)
         if kind == "quad-active" and j == 0:
             bb = a @ t0 - rng.uniform(0.1, 0.5) * np.linalg.norm(a)     # cuts off the unconstrained optimum -> active
             if a @ xfeas - bb > 0:
@@ -188,7 +196,7 @@ def make_problem(kind, rng):
                  method="SLSQP", options=dict(ftol=1e-14, maxiter=1000))
     feas = all(a @ np.clip(xfeas, lo, hi) - bb <= 1e-9 for a, bb in cons)
     P.update(lo=lo, hi=hi, funs=funs, xopt=r.x if (r.success and feas) else None, x0=lo + rng.uniform(0.1, 0.9, n) * (hi - lo),
-             cls="A" if kind == "quad-active" else "B", scale_obj=False)
+             cls="A" if kind == "quad-active" else "B", scale_obj=False, indep=indep)
     return P
 
 
@@ -281,7 +289,9 @@ def run_case(case, ctx):
         else:
             sigs.append(pym.Signal(f"v{len(sigs)}", float(x0[k]) if sc else x0[k:k + sz].copy()))
         k += sz
-    mods = [Sep(sigs, pym.Signal(f"g{j}"), f) for j, f in enumerate(P["funs"])]
+    mods = [Sep(sigs, pym.Signal(f"g{j}"), f, indep=P.get("indep", {}).get(j, ())) for j, f in enumerate(P["funs"])]
+    if P.get("indep"):
+        ctx.count("responses_independent_of_a_variable_signal", len(P["indep"]))
     resp = [m.sig_out[0] for m in mods]
     objscale = 1.0
     if P["scale_obj"]:
@@ -311,6 +321,14 @@ def run_case(case, ctx):
         states.append(np.concatenate([np.atleast_1d(np.asarray(s.state, dtype=float)).ravel() for s in sigs]))
         for s, sc, sz in zip(sigs, scalar, sizes):
             require(np.size(s.state) == sz, "write-back/variable-signal-changed-size", tag=s.tag, size=int(np.size(s.state)), want=sz)
+    if rng.random() < 0.3:
+        # the user looked at a gradient first: response, seed, sensitivity - and starts the optimisation without calling reset()
+        with contextlib.redirect_stdout(io.StringIO()), warnings.catch_warnings():
+            warnings.simplefilter("ignore")
+            net.response()
+            resp[int(rng.integers(0, len(resp)))].sensitivity = 1.0
+            net.sensitivity()
+        ctx.count("runs_started_with_sensitivities_left_on_the_signals")
     mma_mod.subsolv = spy
     try:
         with contextlib.redirect_stdout(io.StringIO()), warnings.catch_warnings():
